@@ -2177,6 +2177,36 @@ def _induction_vars(fn):
     return changed[0]
 
 
+def _loop_else_without_break(fn):
+    """for ..: BODY  else: ELSE   with no `break` in BODY that belongs to this loop   ->   for ..: BODY ; ELSE      (the else clause always runs)"""
+    def own_break(stmts):
+        stack = list(stmts)
+        while stack:
+            x = stack.pop()
+            if isinstance(x, ast.Break):
+                return True
+            if isinstance(x, (ast.For, ast.While)):
+                stack.extend(x.orelse)
+                continue
+            if isinstance(x, (ast.FunctionDef, ast.Lambda, ast.ClassDef)):
+                continue
+            stack.extend(ast.iter_child_nodes(x))
+        return False
+    for n in ast.walk(fn):
+        for fld in ('body', 'orelse', 'finalbody'):
+            blk = getattr(n, fld, None)
+            if not (isinstance(blk, list) and blk and isinstance(blk[0], ast.stmt)):
+                continue
+            for i, st in enumerate(blk):
+                if isinstance(st, (ast.For, ast.While)) and st.orelse and not own_break(st.body):
+                    tail = st.orelse
+                    st.orelse = []
+                    blk[i + 1:i + 1] = tail
+                    ast.fix_missing_locations(fn)
+                    return True
+    return False
+
+
 def _setattr_statements(fn):
     """setattr(obj, 'name', v)  as a statement   ->   obj.name = v        (a constant identifier; obj a plain name / attribute chain)"""
     hit = False
@@ -3377,6 +3407,7 @@ def simplify_function(fn, ctx, inliner, cls):
         changed |= _yield_from_genexp(fn)
         changed |= _for_over_genexp(fn)
         changed |= _setattr_statements(fn)
+        changed |= _loop_else_without_break(fn)
         changed |= _conditional_displays(fn)
         if _propagate_locals(fn, ctx):
             changed = True
